@@ -29,7 +29,9 @@ TIGHT = dict(qeps1=1e-12, qeps2=1e-15, eps=1e-9, niter=400)
 def _cluster(kmax, xhi=3.5):
     mem = st.fixed_dictionaries({"x": gen.size_param(0.3, xhi), "m": gen.rel_index(None, 0.7, 2.0).map(lambda t: [t[0], min(t[1], 0.2)]),
                                  "dir": st.tuples(st.floats(0.2, math.pi - 0.2), st.floats(0, 2 * math.pi)).map(list),
-                                 "dist": st.floats(1.02, 1.5)})
+                                 "dist": st.floats(1.02, 1.5),
+                                 # optionally: k * (distance from the first sphere) at a zero of a Riccati-Bessel function
+                                 "kd": st.one_of(st.none(), st.none(), st.none(), st.integers(0, 44))})
     return st.lists(mem, min_size=2, max_size=kmax)
 
 
